@@ -31,6 +31,27 @@ MODEL_AREAS = ('front',)
 
 OUTSIDE = list("@#$~!?\"^`") + ["\x00", "\x7f", "\x80", "\xc3\xa9", "\xff"]
 WS = set(" \t\n\v\r")
+
+
+def deviating_runes():
+    """gen/RuneTable.v lists, per context, the groups of non-ASCII runes by the behaviour of the REAL scanner; on a
+    tree where the property holds every context has ONE group (theorem C12_rune_sweep_agrees).  Returns the first
+    rune of every further group (as UTF-8 bytes in a latin1 string), i.e. runes the scanner no longer treats as
+    characters outside the alphabet."""
+    try:
+        txt = open(os.path.join(C.GEN, "RuneTable.v")).read()
+    except OSError:
+        return []
+    out = []
+    for row in re.findall(r"^  \(.*?\[(\(.*)\]\)[;\]]", txt, re.M):
+        groups = re.findall(r"\(\[([^\]]*)\], (\d+)%N, (\d+)%N\)", row)
+        if len(groups) > 1:
+            for sig, n, first in groups:
+                if int(first) != 128 and 0x80 <= int(first) <= 0x10FFFF and not (0xD800 <= int(first) <= 0xDFFF):
+                    r = chr(int(first)).encode("utf8").decode("latin1")
+                    if r not in out:
+                        out.append(r)
+    return out[:60]
 SINGLE = set(">()[]{}.;:|,+*&%")
 
 
@@ -207,6 +228,25 @@ def run(b, ps, tier, seed):
             rot += 1
             for ch in chars:
                 ins_cases.append(("%s@%d:%02x" % (si, p, ord(ch[0])), "insert_outside", t[:p] + ch + t[p:]))
+    # (2b) when the rune sweep of the translator found non-ASCII runes that the real scanner no longer treats as
+    # illegal (gen/RuneTable.v has a context with several groups; theorem C12_rune_sweep_agrees fails), the same
+    # stream is run with those runes: inserted at every boundary, and in place of every single-character token
+    dev = deviating_runes()
+    n_dev_cases = 0
+    if dev:
+        for si, t in seeds[:25]:
+            bs, clean = scan_boundaries(t)
+            if not clean:
+                continue
+            for p in bs:
+                for r in dev:
+                    ins_cases.append(("%s@%d:rune%s" % (si, p, r.encode("latin1").hex()), "insert_rune", t[:p] + r + t[p:]))
+                    n_dev_cases += 1
+                    if p < len(t) and t[p] in SINGLE:
+                        ins_cases.append(("%s@%d:sub%s" % (si, p, r.encode("latin1").hex()), "subst_rune", t[:p] + r + t[p + 1:]))
+                        n_dev_cases += 1
+                if n_dev_cases > 60000:
+                    break
     impl_ins = S.run_tool(b.probe, "parse", ins_cases, timeout=2400) if ok_tools and ins_cases else {}
     accepted = [(i, k, t) for i, k, t in ins_cases if verdict(impl_ins.get(i, "MISSING")) != "ERR"]
     # the model must reject all of them (theorem C12_illegal_at_boundary_rejected); it is run on
@@ -268,6 +308,8 @@ def run(b, ps, tier, seed):
         "correspondence_cases": len(cases),
         "correspondence_mismatches": len(mism),
         "insertion_cases": len(ins_cases),
+        "deviating_runes_from_sweep": [r.encode("latin1").hex() for r in dev],
+        "deviating_rune_cases": n_dev_cases,
         "insertion_seeds": len(per_seed),
         "insertion_boundaries": sum(per_seed.values()),
         "insertion_not_rejected": len(accepted),
@@ -285,6 +327,7 @@ def run(b, ps, tier, seed):
             "trusted_extra": ["translator translate/lrtables.py (syntactic: array literals and constants of parser.y.go)",
                               "translate/lrcert.py is NOT trusted: its output (edges, weights, right-hand sides) is re-checked in Coq by computation",
                               "translator `probe scantables` (go/ast keyword literals + behavioural dump of the 256 byte classes)",
+                              "translator `probe runesweep` (the real scanner executed on every rune U+0080..U+10FFFF alone and on a covering sample in 11 further contexts; gen/RuneTable.v, theorem C12_rune_sweep_agrees)",
                               "correspondence: probe parse vs extracted model on the same texts (extraction: ExtrOcamlBasic, ExtrOcamlString)"]}
 
 
